@@ -107,7 +107,7 @@ CHECKS = {
              "stores; exact run: any exception; float run: non-finite scan). Three genuine defects found this way were "
              "repaired with fix: commits (see known_findings.json).",
         design="5/C12", tech="Coq proof of division-site lemmas + boundary-stream whole-model monitor (partial)",
-        note=NOTE + "GrowingSurface / nutrient pools are not in the boundary stream yet."),
+        note=NOTE),
     "C20": dict(
         text="PARTIAL proof: erasure theorems - two stores / fluxes / arcs that agree in volume and differ arbitrarily in "
              "pollutant lists, masses and qualities give equal volumes under every store operation, close-out and every "
